@@ -3,7 +3,8 @@ import MiniVecProof.Proofs.MemOps
   C14 — raw-pointer round trip.
 
   `from_raw_part(s)` reads the block's alignment from the word right in front of element 0 and walks
-  back by `next_aligned(size_of::<Header>(), alignment)`; element 0 lives at
+  back by `next_aligned(size_of::<Header>(), alignment)` (both statements are REGENERATED from the source:
+  `Gen.from_raw_part(s)_pre` now reaches `let buf = p.sub(aligned)`); element 0 lives at
   `next_aligned(size_of::<Header>(), A)` for the alignment `A` recorded in the block (regenerated
   `data`).  `grow` writes that word before it installs a block (regenerated `grow`: `GM.writeMirror`
   checks value and place; `GM.setBuf` refuses a block without it — `grow_spec` shows every
@@ -15,58 +16,55 @@ import MiniVecProof.Proofs.MemOps
 namespace MV.Props
 open MV MV.Gen MV.GM VM
 
-/-- the regenerated prefixes do nothing but the null check -/
-theorem C14_from_raw_part_pre (E : Env) (p : DPtr) (g : GS) (hp : p.isNull = false) :
-    (∃ env, from_raw_part_pre E p g = (.ok (.cont env), g)) ∧
-    (∀ l c, ∃ env, from_raw_parts_pre E p l c g = (.ok (.cont env), g)) := by
+/-- the regenerated `from_raw_part(s)` up to `let buf = p.sub(aligned)`, on the header machine: handed the data
+    pointer of a block recorded with alignment `A` (any alignment a layout exists for), it reads `A` from the
+    word in front of the elements and is about to walk back exactly the data offset of that block; nothing is
+    changed. (Handed any other pointer, or a vector without storage, the read is illegal.) -/
+theorem C14_back_distance (X : Ctx) (g : GS) (c : Nat) (L : Layout) (hd : g.isDefault = false)
+    (hL : make_layout X.env c g.align = .ok L) (l k : Nat) :
+    Vec.backPart X (.at (dataOff g.align)) g = (.ok (dataOff g.align), g) ∧
+    Vec.backParts X l k (.at (dataOff g.align)) g = (.ok (dataOff g.align), g) := by
+  obtain ⟨m1, _, _⟩ := mirror_ok X.env c g.align L hL
+  have hr : GM.readMirror (.at (alignUp hdrSize g.align)) wordSize g = (.ok g.align, g) := by
+    simp [GM.readMirror, hd]
+  simp only [dataOff]
   constructor
-  · exact ⟨⟨p, hdrSize, p⟩, by simp [from_raw_part_pre, GM.debugAssert, hp]⟩
-  · intro l c; exact ⟨⟨p, l, c, hdrSize, p⟩, by simp [from_raw_parts_pre, GM.debugAssert, hp]⟩
+  · simp [Vec.backPart, from_raw_part_pre, GM.debugAssert, DPtr.isNull, GM.bind_run, hr, GM.liftE, m1]
+  · simp [Vec.backParts, from_raw_parts_pre, GM.debugAssert, DPtr.isNull, GM.bind_run, hr, GM.liftE, m1]
+
+/-- a pointer that is not the data pointer of the installed block is refused by the model -/
+theorem C14_foreign_pointer_refused (X : Ctx) (g : GS) (o : Nat) (ho : o ≠ dataOff g.align) :
+    (Vec.backPart X (.at o) g).1 = .error .ub := by
+  have hr : GM.readMirror (.at o) wordSize g = (.error .ub, g) := by
+    simp [GM.readMirror, dataOff] at *; intro _; exact ho
+  simp [Vec.backPart, from_raw_part_pre, GM.debugAssert, DPtr.isNull, GM.bind_run, hr]
 
 /-- model level: on EVERY well-formed vector with storage — whatever alignment its block was
     requested with — the round trip rebuilds the same handle and reports its length and capacity;
     state untouched -/
-theorem C14_roundtrip (X : Ctx) (s : St) (es : List Elem) (h : Abs X s.v es) (hd : s.v.isDefault = false) :
-    Vec.raw_roundtrip X (do
-        let f ← from_raw_part_pre X.env (.at 0)
-        match f with
-        | .cont _ => pure ()
-        | .ret _ => GM.throw .ub) s = (.ok (some (es.length, s.v.cap)), s) ∧
-    Vec.raw_roundtrip X (do
-        let f ← from_raw_parts_pre X.env (.at 0) 0 0
-        match f with
-        | .cont _ => pure ()
-        | .ret _ => GM.throw .ub) s = (.ok (some (es.length, s.v.cap)), s) := by
+theorem C14_roundtrip (X : Ctx) (s : St) (es : List Elem) (h : Abs X s.v es) (hd : s.v.isDefault = false) (l k : Nat) :
+    Vec.raw_roundtrip X (Vec.backPart X) s = (.ok (some (es.length, s.v.cap)), s) ∧
+    Vec.raw_roundtrip X (Vec.backParts X l k) s = (.ok (some (es.length, s.v.cap)), s) := by
   obtain ⟨b, hb, hl, hs, hlc, hel, hinit⟩ := h.alloc hd
   have hL : (hsOf s.v s.sys.allocIdx).L = es.length := h.len_eq
   have hC : (hsOf s.v s.sys.allocIdx).C = s.v.cap := by simp [GS.C, hsOf, hd]
-  have hal : b.lay.align = s.v.align := (make_layout_honest _ _ _ _ hl).2.1
   have h1 : VM.lift X (as_mut_ptr X.env) s = (.ok (.at (dataOff s.v.align)), s) :=
     lift_read X _ s _ (as_mut_ptr_run X.env _ hd b.lay s.v.cap hl)
   have h2 : VM.lift X (len X.env) s = (.ok es.length, s) := lift_read X _ s _ (by rw [len_run, hL])
   have h3 : VM.lift X (capacity X.env) s = (.ok s.v.cap, s) := lift_read X _ s _ (by rw [capacity_run, hC])
-  obtain ⟨m1, _, _⟩ := mirror_ok X.env s.v.cap s.v.align b.lay hl
-  have h4 : Vec.readMirror s = (.ok s.v.align, s) := by
-    simp [Vec.readMirror, VM.bind_run, VM.getV_run, hb, hal]
-  have h5 : VM.lift X (GM.liftE (next_aligned X.env hdrSize s.v.align)) s = (.ok (dataOff s.v.align), s) :=
-    lift_read X _ s _ (by simp [GM.liftE, m1, dataOff])
+  have hg : (hsOf s.v s.sys.allocIdx).isDefault = false := by simp [hsOf, hd]
+  have hga : (hsOf s.v s.sys.allocIdx).align = s.v.align := by simp [hsOf, hd]
+  have hbk := C14_back_distance X (hsOf s.v s.sys.allocIdx) s.v.cap b.lay hg (by rw [hga]; exact hl) l k
+  rw [hga] at hbk
+  have h4 : VM.lift X (Vec.backPart X (.at (dataOff s.v.align))) s = (.ok (dataOff s.v.align), s) :=
+    lift_read X _ s _ hbk.1
+  have h5 : VM.lift X (Vec.backParts X l k (.at (dataOff s.v.align))) s = (.ok (dataOff s.v.align), s) :=
+    lift_read X _ s _ hbk.2
   constructor
-  · have hp : VM.lift X (do
-        let f ← from_raw_part_pre X.env (.at 0)
-        match f with
-        | .cont _ => pure ()
-        | .ret _ => GM.throw .ub : GM Unit) s = (.ok (), s) :=
-      lift_read X _ s _ (by simp [from_raw_part_pre, GM.debugAssert, DPtr.isNull])
-    unfold Vec.raw_roundtrip
-    simp only [VM.bind_run, h1, h2, h3, hp, h4, h5, if_true, VM.pure_run]
-  · have hp : VM.lift X (do
-        let f ← from_raw_parts_pre X.env (.at 0) 0 0
-        match f with
-        | .cont _ => pure ()
-        | .ret _ => GM.throw .ub : GM Unit) s = (.ok (), s) :=
-      lift_read X _ s _ (by simp [from_raw_parts_pre, GM.debugAssert, DPtr.isNull])
-    unfold Vec.raw_roundtrip
-    simp only [VM.bind_run, h1, h2, h3, hp, h4, h5, if_true, VM.pure_run]
+  · unfold Vec.raw_roundtrip
+    simp only [VM.bind_run, h1, h2, h3, h4, if_true, VM.pure_run]
+  · unfold Vec.raw_roundtrip
+    simp only [VM.bind_run, h1, h2, h3, h5, if_true, VM.pure_run]
 
 /-- every successful `grow` wrote the word: the regenerated `grow` passes the value/place check of
     `GM.writeMirror` and the "was written" check of `GM.setBuf` on every path that installs a block
@@ -107,7 +105,8 @@ theorem C14_offsets_disagreed_overaligned :
 
 end MV.Props
 
-#print axioms MV.Props.C14_from_raw_part_pre
+#print axioms MV.Props.C14_back_distance
+#print axioms MV.Props.C14_foreign_pointer_refused
 #print axioms MV.Props.C14_roundtrip
 #print axioms MV.Props.C14_grow_writes_the_word
 #print axioms MV.Props.C14_offsets_disagreed_overaligned
